@@ -293,6 +293,7 @@ def run(ctx):
     rule_reject(ctx, cd)
     rule_errprop(ctx, cd, "ser", "R-C01-ERRPROP")
     rule_advance(ctx, cd)
+    _codec.rule_bulk_advance(ctx, cd, "ser", "R-C01-ADVANCE")
     _codec.rule_zero_cost(ctx, pyfront.PyIndex(ctx.root), "R-C01-ZEROCOST")
     _codec.rule_std_width(ctx, pyfront.PyIndex(ctx.root), "R-C01-STDWIDTH")
     _codec.rule_sat_use(ctx, cd, "R-C01-SAT-USE")
